@@ -103,6 +103,72 @@ def reactor_spec(draw, geoms=("hex", "hex_corners_up", "cartesian"), max_rings=3
     }
 
 
+@st.composite
+def rzt_spec(draw, max_r=3, max_theta=3, max_blocks=3):
+    """theta-R-Z core: one assembly design per (theta, r) cell, RadialSegment components (as in armi's godiva input)."""
+    nth = draw(st.integers(1, max_theta))
+    nr = draw(st.integers(1, max_r))
+    sector = draw(st.sampled_from([("eighth periodic", math.pi / 4), ("quarter periodic", math.pi / 2), ("full", 2 * math.pi)]))
+    theta = [round(sector[1] * k / nth, 12) for k in range(nth + 1)]
+    theta[-1] = sector[1]
+    r = [0.0]
+    for _ in range(nr):
+        r.append(round(r[-1] + draw(st.floats(1.0, 20.0)), 3))
+    nblocks = draw(st.integers(1, max_blocks))
+    heights = [draw(st.floats(2.0, 30.0).map(lambda x: round(x, 3))) for _ in range(nblocks)]
+    cells = []
+    for ti in range(nth):
+        for ri in range(nr):
+            if len(cells) and draw(st.integers(0, 6)) == 0:
+                continue
+            cells.append([ti, ri, draw(st.floats(0.3, 1.0).map(lambda x: round(x, 4))), draw(st.sampled_from("ABC"))])
+    return {"geom": "thetarz", "symmetry": sector[0], "theta": theta, "r": r, "heights": heights, "cells": cells, "sfp": False,
+            "designs": [], "pitch": 0.0, "rings": nr}
+
+
+def render_rzt(spec):
+    L = ["blocks: {}", "assemblies:"]
+    nb = len(spec["heights"])
+    L.append("    heights: &heights [%s]" % ", ".join(repr(h) for h in spec["heights"]))
+    L.append("    axial mesh points: &mesh [%s]" % ", ".join("1" for _ in range(nb)))
+    for ti, ri, frac, xs in spec["cells"]:
+        name = "assembly%d_%d" % (ti, ri)
+        L.append("    %s:" % name)
+        L.append("        specifier: %s" % name)
+        L.append("        blocks:")
+        for bi, h in enumerate(spec["heights"]):
+            L.append("            - name: block%d_%d_%d" % (ti, ri, bi))
+            for cname, mat, mult in (("fuel", "UZr", frac), ("compliment", "Sodium", round(1.0 - frac, 6))):
+                if mult <= 0:
+                    continue
+                L.append("              %s:" % cname)
+                L.append("                  shape: RadialSegment")
+                L.append("                  material: %s" % mat)
+                L.append("                  Tinput: 450.0")
+                L.append("                  Thot: 450.0")
+                L.append("                  inner_theta: %r" % spec["theta"][ti])
+                L.append("                  outer_theta: %r" % spec["theta"][ti + 1])
+                L.append("                  inner_radius: %r" % spec["r"][ri])
+                L.append("                  outer_radius: %r" % spec["r"][ri + 1])
+                L.append("                  height: %r" % h)
+                L.append("                  mult: %r" % mult)
+        L.append("        height: *heights")
+        L.append("        axial mesh points: *mesh")
+        L.append("        xs types: [%s]" % ", ".join(xs for _ in range(nb)))
+    L += ["systems:", "    core:", "        grid name: core", "        origin: {x: 0.0, y: 0.0, z: 0.0}", "grids:", "    core:",
+          "        geom: thetarz", "        symmetry: %s" % spec["symmetry"], "        grid bounds:"]
+    L.append("            r: [%s]" % ", ".join(repr(x) for x in spec["r"]))
+    L.append("            theta: [%s]" % ", ".join(repr(x) for x in spec["theta"]))
+    z = [0.0]
+    for h in spec["heights"]:
+        z.append(round(z[-1] + h, 6))
+    L.append("            z: [%s]" % ", ".join(repr(x) for x in z))
+    L.append("        grid contents:")
+    for ti, ri, _f, _x in spec["cells"]:
+        L.append("            [%d,%d]: assembly%d_%d" % (ti, ri, ti, ri))
+    return "\n".join(L) + "\n"
+
+
 # ---------------------------------------------------------------------------------------------
 # rendering
 
@@ -204,6 +270,8 @@ def _pin_map(mult):
 
 
 def render(spec):
+    if spec["geom"] == "thetarz":
+        return render_rzt(spec)
     L = ["blocks:"]
     blocknames = {}
     for di, d in enumerate(spec["designs"]):
